@@ -575,7 +575,14 @@ static int run_case(void)
       i += 8; continue;
     }
     if(!strcmp(o, "X")) { if(A(1) > 0 && win_ok(A(1))) do_close(A(1)); i += 2; continue; }
-    if(!strcmp(o, "S")) { if(win_ok(A(1))) tickit_window_show(hw[A(1)].win); i += 2; continue; }
+    if(!strcmp(o, "S")) {
+      if(win_ok(A(1))) {
+        SEP(); printf("SH W=%d U=", A(1)); print_tree(root);
+        tickit_window_show(hw[A(1)].win);
+        printf(" T="); print_tree(root);
+      }
+      i += 2; continue;
+    }
     if(!strcmp(o, "H")) { if(win_ok(A(1))) tickit_window_hide(hw[A(1)].win); i += 2; continue; }
     if(!strcmp(o, "R"))  { if(win_ok(A(1))) tickit_window_raise(hw[A(1)].win); i += 2; continue; }
     if(!strcmp(o, "RF")) { if(win_ok(A(1))) tickit_window_raise_to_front(hw[A(1)].win); i += 2; continue; }
